@@ -168,7 +168,12 @@ class Chart(DictPropertiesEqMixin, DictReprTruncatedSequencesMixin):
             elif header_tag not in cls._required_header_tags:
                 logger.warning(cls._unhandled_data_section_log_msg_tmpl.format(header_tag))
 
-        return cls(metadata, global_events_track, sync_track, instrument_tracks)
+        # Hand out a plain dict: a defaultdict would insert an empty entry whenever an absent
+        # instrument is merely looked up (``chart[instrument]``, ``notes_per_second``), silently
+        # changing the chart's repr and its equality with an identically parsed chart.
+        return cls(
+            metadata, global_events_track, sync_track, InstrumentTrackMap(dict(instrument_tracks))
+        )
 
     @classmethod
     def _partition_lines_by_data_section(cls, lines: Iterable[str]) -> dict[str, Iterable[str]]:
